@@ -3,9 +3,9 @@
 # then the repository's whole test-suite on the mutated copy. Results -> /tmp/seed_<Cxx>/SEED/k/eval.txt
 P=$1; shift; CHECKS="${@:-$P}"
 for k in 1 2 3; do
-  SD=/tmp/seed_$P/SEED/$k
+  SD=${SEEDROOT:-/tmp/seed_}$P/SEED/$k
   [ -f $SD/patch.diff ] || continue
   ( /verif/tools/eval_seed.sh $SD $CHECKS > $SD/eval.txt 2>&1; /verif/tools/seed_tests.sh $SD/patch.diff >> $SD/eval.txt 2>&1 ) &
 done
 wait
-for k in 1 2 3; do echo "== $P-$k"; grep -E "^RESULT|^TESTS|^demo" /tmp/seed_$P/SEED/$k/eval.txt; done
+for k in 1 2 3; do echo "== $P-$k"; grep -E "^RESULT|^TESTS|^demo" ${SEEDROOT:-/tmp/seed_}$P/SEED/$k/eval.txt; done
